@@ -77,8 +77,8 @@ type Profile struct {
 	Classes      bool
 }
 
-var allListeners = []string{"udp", "tcp", "gnet", "tls", "http", "fasthttp", "https"}
-var allUpKinds = []string{"udp", "tcp", "tcp+pipeline", "tls", "tls+pipeline", "https", "http"}
+var allListeners = []string{"udp", "udp", "tcp", "tcp", "gnet", "gnet", "tls", "tls", "http", "fasthttp", "https", "https", "quic"}
+var allUpKinds = []string{"udp", "udp", "tcp", "tcp", "tcp+pipeline", "tcp+pipeline", "tls", "tls", "tls+pipeline", "tls+pipeline", "https", "https", "http", "quic", "h3"}
 
 func baseProfile() Profile {
 	return Profile{
@@ -314,7 +314,7 @@ func genRouter(r *rng, pr *Profile, focus, arm string) *plan.RouterPlan {
 		if byName {
 			host = fmt.Sprintf("up%d.upstream.test", i)
 		}
-		defPort := map[string]int{"udp": 53, "tcp": 53, "tcp+pipeline": 53, "tls": 853, "tls+pipeline": 853, "https": 443, "http": 80}[kind]
+		defPort := map[string]int{"udp": 53, "tcp": 53, "tcp+pipeline": 53, "tls": 853, "tls+pipeline": 853, "https": 443, "http": 80, "quic": 853, "h3": 443}[kind]
 		u.Port = defPort
 		addr := host
 		if r.p(0.4) {
@@ -328,13 +328,13 @@ func genRouter(r *rng, pr *Profile, focus, arm string) *plan.RouterPlan {
 			} else {
 				u.Addr = "udp://" + addr
 			}
-		case "https", "http":
+		case "https", "http", "h3":
 			u.Addr = kind + "://" + addr + "/dns-query"
 			u.HTTP1 = kind == "https" && r.p(0.3)
 		default:
 			u.Addr = kind + "://" + addr
 		}
-		if kind == "tls" || kind == "tls+pipeline" || kind == "https" {
+		if kind == "tls" || kind == "tls+pipeline" || kind == "https" || kind == "quic" || kind == "h3" {
 			u.TLS = "good"
 			if r.p(0.8) {
 				u.UseCA = true
